@@ -1579,12 +1579,16 @@ def _put_slice_Tuple_elts(
     pfield = self.pfield
     is_slice = pfield and pfield.name == 'slice'
     need_par = False
+    need_unpar = False
 
     if fst_:
         fst_body = fst_.a.elts
 
         if len(fst_body) == 1 and (b0 := fst_body[0]).__class__ is Tuple and any(e.__class__ is Slice for e in b0.elts):  # putting a tuple with Slices as one
             raise NodeError('cannot put tuple with Slices to tuple')
+
+        if is_slice and is_delimited and not body and any(e.__class__ is Slice for e in fst_body):  # empty Subscript.slice Tuple '()' is only parenthesized because it is empty (normally by us after cut or del), Slices can be put but then it must lose the parentheses
+            need_unpar = True
 
         if PYLT11:
             if is_slice and not is_delimited and any(e.__class__ is Starred for e in fst_body):
@@ -1600,7 +1604,8 @@ def _put_slice_Tuple_elts(
     # normal stuff
 
     _validate_put_seq(self, fst_,
-                      '' if not pfield or (is_slice and not is_delimited) else 'non-root non-unparenthesized-slice Tuple',
+                      '' if not pfield or (is_slice and (not is_delimited or need_unpar)) else
+                      'non-root non-unparenthesized-slice Tuple',
                       check_target=is_valid_target)
 
     bound_ln, bound_col, bound_end_ln, bound_end_col = self.loc
@@ -1621,7 +1626,9 @@ def _put_slice_Tuple_elts(
 
     is_delimited = self._fix_Tuple(is_delimited, par_if_needed)
 
-    if need_par and not is_delimited and par_if_needed:
+    if need_unpar:
+        self._undelimit_node()
+    elif need_par and not is_delimited and par_if_needed:
         self._delimit_node()
 
 
